@@ -30,7 +30,7 @@ func vh_SAE() {
 	}
 	cnt0 := cnt
 	nv := vRefVoters(r.configuration, ids)
-	targetVoter := r.isVoter(target)
+	targetVoter := vRefIsVoter(r.configuration, target)
 	vSetLease(r, "l")
 	lease0 := r.operationManager.leaderLease
 	exp0 := lease0.expiration
@@ -112,7 +112,7 @@ func vh_SAE() {
 	vAssert(vImplies(vAnd(post.term == mid.term, mid.votedFor != ""), post.votedFor == mid.votedFor), "C01|C02|C07|C08.vote-stable(G2)")
 	vAssert(vImplies(vAnd(mid.state == Leader, post.state != Leader), post.term > mid.term), "C16.leader-steps-down-only-on-higher-term")
 	vAssert(vAnd(post.logLen == mid.logLen, post.commit == mid.commit), "C01|C07.sender-never-rewrites-log")
-	if !rpcFailed && mid.state == Leader && r.isMember(target) {
+	if !rpcFailed && mid.state == Leader && vRefIsMember(r.configuration, target) {
 		vAssert(vImplies(resp.Term > mid.term, vAnd(post.term == resp.Term, post.state == Follower)), "C08|C15.newer-reply-term-deposes-the-sender")
 	}
 	if f == nil {
